@@ -334,6 +334,31 @@ theorem roundHalfEven_close (q : Rat) :
       · constructor <;> grind
       · rw [h3]; constructor <;> grind
 
+theorem toNat_cast_rat (z : Int) (h : 0 ≤ z) : ((z.toNat : Nat) : Rat) = (z : Rat) := by
+  have : ((z.toNat : Nat) : Int) = z := Int.toNat_of_nonneg h
+  rw [← Rat.intCast_natCast, this]
+
+theorem roundHalfEven_nonneg (q : Rat) (h : 0 ≤ q) : 0 ≤ roundHalfEven q := by
+  have hf : 0 ≤ q.floor := by rw [Rat.le_floor_iff]; simpa using h
+  unfold roundHalfEven
+  simp only
+  repeat' split
+  all_goals omega
+
+theorem two_pow_64 : (((18446744073709551616 : Int)) : Rat) = (2 : Rat) ^ 64 := by decide +kernel
+
+theorem ok_of_datetime (d : Duration) (h : d.secs ≤ maxChronoSecs) :
+    ofDateTime (datetimeUtcFromEpochDuration d) = .ok d.totalNanos := by
+  simp only [datetimeUtcFromEpochDuration, if_pos h, ofDateTime]
+
+theorem panic_of_datetime (d : Duration) (h : ¬ d.secs ≤ maxChronoSecs) :
+    ofDateTime (datetimeUtcFromEpochDuration d) = .panic := by
+  simp only [datetimeUtcFromEpochDuration, if_neg h, ofDateTime]
+
+theorem fromMillis_total (ms : Nat) : (Duration.fromMillis ms).totalNanos = ms * nanosPerMilli := by
+  simp only [Duration.fromMillis, Duration.totalNanos, nanosPerSec, nanosPerMilli]
+  omega
+
 theorem roundHalfEven_intCast (z : Int) : roundHalfEven (z : Rat) = z := by
   unfold roundHalfEven
   have h : ((z : Rat) - ((z : Int) : Rat)) = 0 := by grind
